@@ -70,8 +70,22 @@ DNA = "ACGT"  # order irrelevant, only membership
 PROT = "ACDEFGHIKLMNPQRSTUVWY"
 
 
+# IUPAC ambiguity codes the moltypes resolve (cogent3 moltype.ambiguities; '?' and '-' are not used)
+AMBIG = {
+    "dna": {"N": "ACGT", "R": "AG", "Y": "CT", "W": "AT", "S": "CG", "K": "GT", "M": "AC", "B": "CGT", "D": "AGT", "H": "ACT", "V": "ACG"},
+    "protein": {"X": PROT, "B": "DN", "Z": "EQ"},
+}
+STOPS = ("TAA", "TAG", "TGA")  # standard genetic code
+SENSE = [a + b + c for a in "TCAG" for b in "TCAG" for c in "TCAG" if a + b + c not in STOPS]
+AA20 = "ACDEFGHIKLMNPQRSTVWY"  # states of the protein substitution models (no U)
+
+
 def _alpha(mt):
     return DNA if mt == "dna" else PROT
+
+
+def _ncanon(text, mt):
+    return sum(c not in AMBIG[mt] for c in text)
 
 
 # ===================================================================== model
@@ -360,6 +374,11 @@ def expected_scores(spec, mt):
     return out
 
 
+def _default_spec(mt):
+    """documented default of align_to_ref / smith_waterman: make_dna_scoring_dict(10, -1, -8) for DNA, make_generic_scoring_dict(10, moltype) otherwise"""
+    return {"kind": "dna", "m": 10, "ts": -1, "tv": -8} if mt == "dna" else {"kind": "generic", "m": 10}
+
+
 def build_scoring(s, spec, mt, sig):
     """the dict handed to the aligner: cogent3's builders where the spec names one"""
     from cogent3.align import make_dna_scoring_dict, make_generic_scoring_dict
@@ -452,6 +471,8 @@ def check_model(s, model, want, d, e, s1, s2):
     base = None
     for i in range(1, model.n + 1):
         for j in range(1, model.m + 1):
+            if (s1[i - 1], s2[j - 1]) not in want:
+                continue  # a pair with an ambiguity code: its score is not documented, not asserted
             v = model.em(Mst, i, j) - want[s1[i - 1], s2[j - 1]]
             if base is None:
                 base = v
@@ -475,9 +496,15 @@ def observe_pair(s, sig, fn, s1, s2, S, d, e, limit):
         return None
     try:
         aln, score = res
-        score = float(score)
     except Exception:  # noqa: BLE001
         s.fail(f"{sig}/result", f"expected (alignment, score), got {res!r}"[:300])
+        return None
+    if not s.check(type(aln).__name__ != "NotCompleted" and hasattr(aln, "to_dict"), f"{sig}/completed", f"returned {aln!r}"[:400]):
+        return None
+    try:
+        score = float(score)
+    except Exception:  # noqa: BLE001
+        s.fail(f"{sig}/score-reported", f"expected a numeric score, got {score!r}"[:300])
         return None
     ok, rows = s.call(f"{sig}/to_dict", lambda: {str(k): str(v) for k, v in aln.to_dict().items()})
     if not ok:
@@ -488,6 +515,23 @@ def observe_pair(s, sig, fn, s1, s2, S, d, e, limit):
         return None
     model = Model(got[0])
     return rows["a"], rows["b"], score, model
+
+
+def _sw_app_fn(s, mt, default_scores):
+    """get_app('smith_waterman') with the call signature of local_pairwise"""
+    from cogent3 import get_app, make_unaligned_seqs
+
+    def fn(s1, s2, S, d, e, return_score=True):
+        kw = {} if default_scores else {"score_matrix": S}
+        app = get_app("smith_waterman", insertion_penalty=d, extension_penalty=e, moltype=mt, **kw)
+        coll = make_unaligned_seqs({"a": s1, "b": s2}, moltype=mt)
+        res = app(coll)
+        if type(res).__name__ == "NotCompleted" or not hasattr(res, "info"):
+            return res, None
+        params = res.info.get("align_params", None) or {}
+        return res, params.get("sw_score", None)
+
+    return fn
 
 
 def check_content(s, sig, r1, r2, t1, t2, local):
@@ -519,6 +563,8 @@ def exec_pair(case) -> Soft:
     s.cls(mt, mode, "S:" + spec["kind"], f"rel:{case.get('rel', '?')}")
     n, m = len(t1), len(t2)
     s.cls("len:1" if min(n, m) == 1 else ("len:2-7" if max(n, m) <= 7 else "len:8+"))
+    namb = sum(c in AMBIG[mt] for c in t1 + t2)
+    s.cls("ambiguity:none" if not namb else ("ambiguity:one-seq" if not all(any(c in AMBIG[mt] for c in t) for t in (t1, t2)) else "ambiguity:both-seqs"))
     S, want = build_scoring(s, spec, mt, "scoring")
     if S is None:
         return s
@@ -527,6 +573,15 @@ def exec_pair(case) -> Soft:
     if not (ok1 and ok2):
         return s
     fn = local_pairwise if local else global_pairwise
+    if case.get("api") == "app":
+        # the smith_waterman app: the same local aligner behind the app interface, score in info['align_params']['sw_score']
+        if not local:
+            raise HarnessError("api=app is the smith_waterman app: local only")
+        mode = "sw_app"
+        if case.get("defaultS") and spec != _default_spec(mt):
+            raise HarnessError("defaultS needs the spec of the documented default scores")
+        s.cls("S:app-default" if case.get("defaultS") else "S:passed")
+        fn = _sw_app_fn(s, mt, bool(case.get("defaultS")))
     obs = observe_pair(s, mode, fn, s1, s2, S, d, e, DEFAULT_LIMIT)
     if obs is None:
         return s
@@ -628,9 +683,18 @@ def _scoring_spec(draw, mt, letters):
     return {"kind": "matrix", "letters": letters, "vals": vals, "dm": draw(st.integers(-2, 12)), "dx": draw(st.integers(-12, 4))}
 
 
-def _pair_case(draw, lengths):
+def _amb_pool(draw, mt, letters, extra=None):
+    """letters to draw sequence characters from: the canonical ones (weight 3 each) plus 1-3 ambiguity codes of the moltype"""
+    codes = sorted(AMBIG[mt]) if extra is None else extra
+    amb = draw(st.lists(st.sampled_from(codes), min_size=1, max_size=3, unique=True))
+    return list(letters) * 3 + amb
+
+
+def _pair_case(draw, lengths, api=None):
     mt = draw(st.sampled_from(["dna", "dna", "protein"]))
-    letters = _letters(draw, mt)
+    canon = _letters(draw, mt)
+    # one case in three carries IUPAC ambiguity codes in its sequences
+    letters = _amb_pool(draw, mt, canon) if draw(st.sampled_from([False, False, True])) else canon
     rel = draw(st.sampled_from(["identical", "unrelated", "substring", "mutated", "mutated", "mutated"]))
     n = draw(st.sampled_from(lengths))
     hi = max(lengths)
@@ -648,17 +712,25 @@ def _pair_case(draw, lengths):
         t2 = _mutate(draw, t1, letters, hi)
     if draw(st.booleans()):
         t1, t2 = t2, t1
-    return {
+    case = {
         "mt": mt,
         "s1": t1,
         "s2": t2,
         "rel": rel,
-        "S": _scoring_spec(draw, mt, letters),
+        "S": _scoring_spec(draw, mt, canon),
         "d": draw(st.sampled_from([1, 1, 2, 2, 3, 4, 6, 9, 12, 20])),
         "e": draw(st.sampled_from([0.5, 0.5, 1, 1, 1.5, 2, 3, 5])),
         "local": draw(st.sampled_from([False, False, True])),
         "hl": draw(st.sampled_from([0, 0, 1])),
     }
+    if api == "app":
+        case["api"] = "app"
+        case["local"] = True
+        if draw(st.sampled_from([False, False, True])):
+            case["defaultS"] = True
+            case["S"] = _default_spec(mt)
+            case["d"], case["e"] = draw(st.sampled_from([(20, 2), (20, 2), (9, 1), (3, 1)]))
+    return case
 
 
 @st.composite
@@ -669,6 +741,11 @@ def brute_cases(draw):
 @st.composite
 def long_cases(draw):
     return _pair_case(draw, [8, 10, 12, 16, 20, 30, 45, 60])
+
+
+@st.composite
+def sw_cases(draw):
+    return _pair_case(draw, [1, 2, 3, 4, 5, 6, 8, 12, 20, 30], api="app")
 
 
 # ============================================================= merge check
@@ -695,6 +772,7 @@ def exec_merge(case) -> Soft:
         return s
     layouts = {tuple(sorted(gap_slots(rr).items())) for rr, _ in pw_rows}
     s.cls(f"rows={len(pw_rows)}", f"ref-gap-layouts={min(len(layouts), 3)}")
+    s.cls("ambiguity" if any(c in AMBIG[mt] for c in ref + "".join(o for _, o in pw_rows)) else "canonical")
     if any(rr.startswith("-") or o.startswith("-") for rr, o in pw_rows):
         s.cls("leading-gap")
     if any(rr.endswith("-") or o.endswith("-") for rr, o in pw_rows):
@@ -758,6 +836,8 @@ def _ref_gap_inside_deletion(pairs):
 def merge_cases(draw):
     mt = draw(st.sampled_from(["dna", "dna", "protein"]))
     letters = _alpha(mt)[: draw(st.sampled_from([2, 4, 4]))] if mt == "dna" else _alpha(mt)[: draw(st.sampled_from([3, 8, 21]))]
+    if draw(st.sampled_from([False, False, True])):
+        letters = _amb_pool(draw, mt, letters)
     n = draw(st.integers(1, 12))
     ref = _text(draw, letters, n, n)
     k = draw(st.integers(1, 4))
@@ -810,6 +890,12 @@ def exec_ref(case) -> Soft:
         if S is None:
             return s
     s.cls(mt, "ref:longest" if ref == "longest" else "ref:named", "S:default" if spec is None else "S:" + spec["kind"], f"n={len(names)}")
+    s.cls("ambiguity" if any(c in AMBIG[mt] for v in seqs.values() for c in v) else "canonical")
+    vals = list(seqs.values())
+    if len(set(vals)) < len(vals):
+        s.cls("member:duplicate")
+    if min(len(v) for v in vals) == 1:
+        s.cls("member:length-1")
     ok, coll = s.call("make_unaligned_seqs", make_unaligned_seqs, {n: seqs[n] for n in case["order"]}, moltype=mt)
     if not ok:
         return s
@@ -827,6 +913,8 @@ def exec_ref(case) -> Soft:
     if ref == "longest":
         top = max(len(v) for v in seqs.values())
         ref_name = [n for n in names if len(seqs[n]) == top][0]
+        if any(_ncanon(seqs[ref_name], mt) <= len(seqs[n]) for n in names if n != ref_name):
+            raise HarnessError("ref='longest' is only in the domain when the longest sequence is unique with and without its ambiguity codes")
     else:
         ref_name = ref
     ok, ref_seq = s.call("make_seq", make_seq, seqs[ref_name], name=ref_name, moltype=mt)
@@ -861,20 +949,42 @@ def _family(draw, letters, k, lo, hi):
     return out
 
 
+def _odd_members(draw, fam, letters):
+    """one family in four gets a member replaced by an exact duplicate of another, an unrelated sequence or a single residue"""
+    if len(fam) < 2 or draw(st.sampled_from([True, False, False, False])) is False:
+        return fam
+    fam = list(fam)
+    i = draw(st.integers(0, len(fam) - 1))
+    kind = draw(st.sampled_from(["duplicate", "unrelated", "length-1"]))
+    if kind == "duplicate":
+        fam[i] = fam[(i + 1) % len(fam)]
+    elif kind == "unrelated":
+        fam[i] = _text(draw, letters, 2, 12)
+    else:
+        fam[i] = _text(draw, letters, 1, 1)
+    return fam
+
+
 @st.composite
 def ref_cases(draw):
     mt = draw(st.sampled_from(["dna", "dna", "dna", "protein"]))
     letters = _alpha(mt)[: (4 if mt == "dna" else draw(st.sampled_from([4, 21])))]
+    canon = letters
+    if draw(st.sampled_from([False, False, True])):
+        letters = _amb_pool(draw, mt, canon)
     k = draw(st.integers(3, 6))
     fam = _family(draw, letters, k, 4, draw(st.sampled_from([8, 16, 30])))
+    fam = _odd_members(draw, fam, letters)
     names = [f"t{i}" for i in range(k)]
     seqs = dict(zip(names, fam))
     if draw(st.booleans()):
         ref = "longest"
         chosen = draw(st.sampled_from(names))
+        # the longest is unique by construction, whether or not ambiguity codes are counted
+        # (align_to_ref measures with get_lengths(), which leaves ambiguity codes out)
         top = max(len(v) for n, v in seqs.items() if n != chosen)
-        while len(seqs[chosen]) <= top:  # the longest is unique by construction
-            seqs[chosen] += draw(st.sampled_from(letters))
+        while _ncanon(seqs[chosen], mt) <= top:
+            seqs[chosen] += draw(st.sampled_from(canon))
     else:
         ref = draw(st.sampled_from(names))
     order = draw(st.permutations(names))
@@ -884,7 +994,7 @@ def ref_cases(draw):
         "seqs": seqs,
         "order": list(order),
         "ref": ref,
-        "S": None if default else _scoring_spec(draw, mt, letters[:4]),
+        "S": None if default else _scoring_spec(draw, mt, canon[:4]),
         "d": draw(st.integers(1, 20)),
         "e": draw(st.integers(1, 10)) / 2,
     }
@@ -974,6 +1084,7 @@ def exec_prog(case) -> Soft:
     seqs = case["seqs"]
     k = len(seqs)
     s.cls(f"n={k}", "model:" + case["model"], f"indel_rate={case['indel_rate']}")
+    s.cls("ambiguity" if any(c in AMBIG["dna"] for v in seqs.values() for c in v) else "canonical")
     a = _prog_run(s, "full-dp", case, DEFAULT_LIMIT)
     if a is None:
         return s
@@ -1004,20 +1115,26 @@ def exec_prog(case) -> Soft:
     return s
 
 
+def _guide_tree(draw, names, lens, binary):
+    """newick of a random rooted tree on names; binary=False also joins three subtrees at a time"""
+    nodes = [f"{n}:{draw(st.sampled_from(lens))}" for n in names]
+    while len(nodes) > 2:
+        if not binary and len(nodes) == 3 and draw(st.booleans()):
+            break  # a trifurcating root
+        take = 2 if binary or len(nodes) < 4 else draw(st.sampled_from([2, 2, 3]))
+        picked = sorted(draw(st.lists(st.integers(0, len(nodes) - 1), min_size=take, max_size=take, unique=True)), reverse=True)
+        parts = [nodes.pop(i) for i in picked][::-1]
+        nodes.append(f"({','.join(parts)}):{draw(st.sampled_from(lens))}")
+    return "(" + ",".join(nodes) + ")"
+
+
 @st.composite
 def prog_cases(draw):
     k = draw(st.sampled_from([2, 3, 3, 4, 4, 5]))
-    fam = _family(draw, DNA, k, 4, draw(st.sampled_from([8, 14, 24])))
+    letters = _amb_pool(draw, "dna", DNA) if draw(st.sampled_from([False, False, True])) else DNA
+    fam = _family(draw, letters, k, 4, draw(st.sampled_from([8, 14, 24])))
     names = [f"t{i}" for i in range(k)]
-    lens = ["0.01", "0.05", "0.1", "0.3", "0.7"]
-    nodes = [f"{n}:{draw(st.sampled_from(lens))}" for n in names]
-    while len(nodes) > 2:
-        i = draw(st.integers(0, len(nodes) - 2))
-        j = draw(st.integers(i + 1, len(nodes) - 1))
-        b = nodes.pop(j)
-        a = nodes.pop(i)
-        nodes.append(f"({a},{b}):{draw(st.sampled_from(lens))}")
-    tree = f"({nodes[0]},{nodes[1]})"
+    tree = _guide_tree(draw, names, ["0.01", "0.05", "0.1", "0.3", "0.7"], binary=True)
     return {
         "seqs": dict(zip(names, fam)),
         "order": list(draw(st.permutations(names))),
@@ -1028,12 +1145,245 @@ def prog_cases(draw):
     }
 
 
+# ===================================== progressive alignment: other options
+OPT_MODELS = {"nucleotide": "dna", "HKY85": "dna", "F81": "dna", "JC69": "dna", "TN93": "dna", "K80": "dna",
+              "codon": "codon", "MG94HKY": "codon", "protein": "protein", "JTT92": "protein", "WG01": "protein"}  # fmt: skip
+TREE_BUILDERS = ("quick_tree", "fast_slow_dist", "jaccard_dist", "approx_pdist", "approx_jc69")
+
+
+def _opts_run(s, sig, case, limit):
+    """one run of progressive_align / tree_align with the case's options -> (rows, hmms), 'no-guide-tree' or None"""
+    from cogent3 import get_app, make_tree, make_unaligned_seqs
+
+    kind = OPT_MODELS[case["model"]]
+    mt = "protein" if kind == "protein" else "dna"
+    opts = case["opts"]
+    data = {n: case["seqs"][n] for n in case["order"]}
+    ok, coll = s.call(f"{sig}/make_unaligned_seqs", make_unaligned_seqs, data, moltype=mt)
+    if not ok:
+        return None
+    kw = {"indel_rate": case["indel_rate"], "indel_length": case["indel_length"]}
+    for key in ("iters", "approx_dists", "param_vals"):
+        if key in opts:
+            kw[key] = opts[key]
+    estimated = case["tree"] is None
+    if case["api"] == "app":
+        if case["tree"] is not None:
+            kw["guide_tree"] = case["tree"]
+        if opts.get("unique_guides"):
+            kw["unique_guides"] = True
+            estimated = True
+        ok, app = s.call(f"{sig}/get_app", get_app, "progressive_align", model=case["model"], **kw)
+        if not ok:
+            return None
+        with capture_hmms(limit) as got:
+            ok, res = s.call(f"{sig}/call", app, coll)
+        if not ok:
+            return None
+        if type(res).__name__ == "NotCompleted":
+            # the guide tree is estimated by other apps first; when they cannot produce a tree (invalid distances)
+            # the app hands their NotCompleted on (app/align.py progressive_align.main): not an alignment result
+            if estimated and str(getattr(res, "origin", "")) in TREE_BUILDERS:
+                return "no-guide-tree"
+            s.fail(f"{sig}/completed", f"app returned {res!r}"[:400])
+            return None
+        aln = res
+    else:
+        from cogent3.align.progressive import tree_align
+
+        if "params_from_pairwise" in opts:
+            kw["params_from_pairwise"] = opts["params_from_pairwise"]
+        if case["tree"] is not None:
+            ok, tree = s.call(f"{sig}/make_tree", make_tree, case["tree"])
+            if not ok:
+                return None
+            kw["tree"] = tree
+        arg = data if opts.get("as_dict") else coll
+        with capture_hmms(limit) as got:
+            ok, res = s.call(f"{sig}/tree_align", tree_align, case["model"], arg, show_progress=False, allowed=(ArithmeticError,), **kw)
+        if not ok:
+            if isinstance(res, ArithmeticError):
+                # Alignment.distance_matrix documents ArithmeticError when a distance cannot be computed: no guide tree
+                if estimated and "pairwise distances" in str(res):
+                    return "no-guide-tree"
+                s.fail(f"{sig}/tree_align/raises:ArithmeticError", f"{res}"[:300])
+            return None
+        if not s.check(isinstance(res, tuple) and len(res) == 2, f"{sig}/returns-alignment-and-tree", f"got {res!r}"[:300]):
+            return None
+        aln, tree = res
+        ok, tips = s.call(f"{sig}/tree-tips", lambda: sorted(tree.get_tip_names()))
+        if ok:
+            s.eq(tips, sorted(data), f"{sig}/tree-tips", "tips of the returned guide tree")
+    if not s.check(hasattr(aln, "to_dict"), f"{sig}/completed", f"returned {aln!r}"[:400]):
+        return None
+    ok, rows = s.call(f"{sig}/to_dict", lambda: {str(k): str(v) for k, v in aln.to_dict().items()})
+    if not ok:
+        return None
+    return rows, got
+
+
+def exec_opts(case) -> Soft:
+    s = Soft("C18/progopts/")
+    seqs = case["seqs"]
+    kind = OPT_MODELS[case["model"]]
+    mt = "protein" if kind == "protein" else "dna"
+    opts = case["opts"]
+    k = len(seqs)
+    s.cls(f"n={k}", kind, "model:" + case["model"], "api:" + case["api"], "tree:estimated" if case["tree"] is None else "tree:given")
+    s.cls(f"iters={opts.get('iters')}", f"approx_dists={opts.get('approx_dists', 'default')}")
+    for key in ("unique_guides", "param_vals", "params_from_pairwise", "as_dict"):
+        if opts.get(key):
+            s.cls(key)
+    s.cls("ambiguity" if any(c in AMBIG[mt] for v in seqs.values() for c in v) else "canonical")
+    if case["tree"] is not None and case["tree"].count(",") + 1 == k and _max_children(case["tree"]) > 2:
+        s.cls("tree:multifurcating")
+    if kind == "codon":
+        for n, t in seqs.items():
+            cods = [t[i : i + 3] for i in range(0, len(t), 3)]
+            if len(t) % 3 or any(_codon_has_stop(c) for c in cods):
+                raise HarnessError(f"codon case with incomplete or stop codon in {n}: {t}")
+    a = _opts_run(s, "run", case, DEFAULT_LIMIT)
+    if a is None:
+        return s
+    if a == "no-guide-tree":
+        s.cls("no-guide-tree")
+        return s
+    rows, hmms = a
+    okc = _prog_content(s, "run", rows, seqs)
+    nodes = [h for h in hmms if len(_viterbi_results(h)) == 1]
+    check_nodes(s, "run", nodes, True)
+    evals = 1 + len(nodes)
+    if okc:
+        gap = any("-" in r for r in rows.values())
+        s.cls("gapped" if gap else "ungapped")
+        s.nontrivial = gap and k >= 3
+    if case.get("hl") == 0:
+        # linear space: only the content clause (node optimality under Hirschberg is the 'progressive' sub-check)
+        b = _opts_run(s, "hirschberg", case, 0)
+        if b is not None and b != "no-guide-tree":
+            evals += 1
+            _prog_content(s, "hirschberg", b[0], seqs)
+            s.cls("hirschberg:same-alignment" if b[0] == rows else "hirschberg:other-alignment")
+    s.evals = evals
+    return s
+
+
+def _max_children(newick):
+    """largest number of children of a node of a newick string without quoted names"""
+    best, stack = 0, []
+    for c in newick:
+        if c == "(":
+            stack.append(1)
+        elif c == "," and stack:
+            stack[-1] += 1
+        elif c == ")" and stack:
+            best = max(best, stack.pop())
+    return best
+
+
+def _codon_has_stop(codon):
+    """some resolution of the (possibly ambiguous) codon is a stop codon of the standard code"""
+    import itertools
+
+    sets = [AMBIG["dna"].get(c, c) for c in codon]
+    return any("".join(p) in STOPS for p in itertools.product(*sets))
+
+
+def _family_tokens(draw, tokens, k, lo, hi):
+    """k mutated copies (token substitutions, insertions, deletions) of a random ancestor made of tokens (codons)"""
+    anc = draw(st.lists(st.sampled_from(tokens), min_size=lo, max_size=hi))
+    fam = []
+    for _ in range(k):
+        out = list(anc)
+        for _ in range(draw(st.integers(1, 4))):
+            op = draw(st.sampled_from("sdi"))
+            pos = draw(st.integers(0, len(out)))
+            if op == "s":
+                out[min(pos, len(out) - 1)] = draw(st.sampled_from(tokens))
+            elif op == "d" and len(out) > 1:
+                del out[pos : pos + draw(st.integers(1, 2))]
+                if not out:
+                    out = [anc[0]]
+            elif op == "i":
+                out[pos:pos] = [draw(st.sampled_from(tokens)) for _ in range(draw(st.integers(1, 2)))]
+        fam.append("".join(out))
+    return fam
+
+
+@st.composite
+def opts_cases(draw):
+    kind = draw(st.sampled_from(["dna", "dna", "dna", "codon", "protein", "protein"]))
+    api = draw(st.sampled_from(["app", "app", "tree_align"]))
+    k = draw(st.sampled_from([2, 3, 3, 4, 4, 5]))
+    amb = draw(st.sampled_from([False, False, True]))
+    opts = {}
+    if kind == "dna":
+        letters = _amb_pool(draw, "dna", DNA) if amb else DNA
+        fam = _family(draw, letters, k, 4, draw(st.sampled_from([8, 14, 24])))
+        model = draw(st.sampled_from(["HKY85", "F81", "JC69", "TN93", "K80"] + (["nucleotide"] if api == "app" else [])))
+        if model in ("HKY85", "K80") and draw(st.booleans()):
+            opts["param_vals"] = {"kappa": draw(st.sampled_from([0.5, 2.0, 4.0]))}
+    elif kind == "protein":
+        size = draw(st.sampled_from([3, 6, 20]))
+        start = draw(st.integers(0, len(AA20) - size))
+        canon = AA20[start : start + size]
+        letters = _amb_pool(draw, "protein", canon) if amb else canon
+        fam = _family(draw, letters, k, 3, draw(st.sampled_from([6, 10, 16])))
+        model = draw(st.sampled_from(["JTT92", "WG01"] + (["protein"] if api == "app" else [])))
+    else:
+        tokens = draw(st.lists(st.sampled_from(SENSE), min_size=2, max_size=6, unique=True))
+        if amb:
+            # codons with one ambiguity code, kept only if every resolution is a sense codon
+            for _ in range(draw(st.integers(1, 2))):
+                c = draw(st.sampled_from(tokens))
+                pos = draw(st.integers(0, 2))
+                cand = c[:pos] + draw(st.sampled_from(sorted(AMBIG["dna"]))) + c[pos + 1 :]
+                tokens = tokens + ([cand] if not _codon_has_stop(cand) else [c])
+        fam = _family_tokens(draw, tokens, k, 2, draw(st.sampled_from([3, 5, 8])))
+        model = "codon" if api == "app" else "MG94HKY"
+        if api == "tree_align" and draw(st.booleans()):
+            opts["param_vals"] = draw(st.sampled_from([{"omega": 0.4, "kappa": 3}, {"omega": 1.5, "kappa": 1.0}]))
+    names = [f"t{i}" for i in range(k)]
+    given = draw(st.sampled_from([False, False, True]))
+    if api == "tree_align" and kind == "codon":
+        given = True  # tree_align estimates a codon guide tree from optimised pairwise alignments: seconds per case
+    tree = _guide_tree(draw, names, ["0.0", "0.01", "0.05", "0.1", "0.3", "0.7"], binary=False) if given else None
+    iters = draw(st.sampled_from([None, None, 1, 2]))
+    if iters is not None:
+        opts["iters"] = iters
+    approx = draw(st.sampled_from([None, True, False]))
+    if approx is not None:
+        opts["approx_dists"] = approx
+    if api == "app":
+        if draw(st.sampled_from([False, False, False, True])):
+            opts["unique_guides"] = True
+    else:
+        pfp = draw(st.sampled_from([None, True, False]))
+        if pfp is not None:
+            opts["params_from_pairwise"] = pfp
+        if draw(st.booleans()):
+            opts["as_dict"] = True
+    return {
+        "api": api,
+        "model": model,
+        "seqs": dict(zip(names, fam)),
+        "order": list(draw(st.permutations(names))),
+        "tree": tree,
+        "opts": opts,
+        "indel_rate": draw(st.sampled_from([1e-10, 0.01, 0.1])),
+        "indel_length": draw(st.sampled_from([0.1, 0.4])),
+        "hl": draw(st.sampled_from([None, None, 0])),
+    }
+
+
 SUBS = [
     Sub("brute", exec_pair, strategy=brute_cases(), quick=960, thorough=64000, shards_quick=16, weight=3.0),
     Sub("pair", exec_pair, strategy=long_cases(), quick=400, thorough=32000, shards_quick=16, weight=4.0),
     Sub("merge", exec_merge, strategy=merge_cases(), quick=1600, thorough=160000, shards_quick=8, weight=1.0),
     Sub("ref", exec_ref, strategy=ref_cases(), quick=320, thorough=24000, shards_quick=8, weight=2.0),
     Sub("progressive", exec_prog, strategy=prog_cases(), quick=128, thorough=9600, shards_quick=8, weight=5.0),
+    Sub("progopts", exec_opts, strategy=opts_cases(), quick=192, thorough=9600, shards_quick=16, weight=6.0),
+    Sub("sw", exec_pair, strategy=sw_cases(), quick=240, thorough=16000, shards_quick=8, weight=2.0),
 ]
 
 KNOWN_PREDICATES = {}
